@@ -547,6 +547,10 @@ func (s *vSerSys) Enabled() []vOp {
 	sort.Ints(ids)
 	for _, id := range ids {
 		ops = append(ops, vOp{K: "Remove", A: id})
+		if s.k.name == "kind=bm25" {
+			// Add on an existing id = replace (C03)
+			ops = append(ops, vOp{K: "Add", A: id, B: (s.live[uint32(id)] + 1) % s.k.nvals})
+		}
 	}
 	if len(s.rem) > 0 {
 		ops = append(ops, vOp{K: "Flush"})
@@ -570,7 +574,9 @@ func (s *vSerSys) Apply(op vOp, hist []vOp, check bool) {
 	err := s.applyTo(s.src, op)
 	switch op.K {
 	case "Add":
-		s.nAdd++
+		if _, replace := s.live[uint32(op.A)]; !replace {
+			s.nAdd++
+		}
 		if err == nil {
 			s.live[uint32(op.A)] = op.B
 		}
@@ -827,7 +833,11 @@ func vSerShards(mode, tier string) []vShard {
 			c.NewState(u.Key() + "untrained")
 			c.Transitions++
 			c.Traces++
-			s := &vSerSys{c: c, k: k, mode: mode, maxN: maxN, contDepth: cont}
+			kc := cont
+			if strings.HasPrefix(k.name, "kind=bm25") || strings.HasPrefix(k.name, "kind=metadata") {
+				kc = 2 // cheap kinds: two continuation steps also in quick
+			}
+			s := &vSerSys{c: c, k: k, mode: mode, maxN: maxN, contDepth: kc}
 			s.Reset()
 			if mode == "c07" {
 				s.roundTrip(nil)
